@@ -1095,6 +1095,8 @@ where
     let source = msg;
 
     *target.header_mut() = msg.header();
+    // The header comes from a request: what goes out is a response.
+    target.header_mut().set_qr(true);
     target.header_mut().set_rcode(Rcode::SERVFAIL);
     target.header_mut().set_ad(false);
 
